@@ -124,10 +124,10 @@ Example anchor2 : (* zero-value SkipList: every read is empty, Clear is a no-op,
   entry 0 [0; 1; 0;5; 16;1;0;0; 17;1;5;0; 11;0;0;0; 7;0;0;0; 10;3;0;0; 2;3;9;0; 4;3;0;0; 18;0;0;0]
   = [0; 0; 0; 0;0; 1; 9;1; 2; 1; 2].
 Proof. vm_compute. reflexivity. Qed.
-Example anchor3 : (* zero-value SkipListWithCmp: RangeWithStart indexes the nil head tower (NEW DEFECT, notes/C02.md) *)
-  entry 0 [4; 0; 16;1;0;0] = [PANIC].
+Example anchor3 : (* zero-value SkipListWithCmp: RangeWithStart / RangeWithRange are empty (guard added in 830a627) *)
+  entry 0 [4; 0; 16;1;0;0; 17;1;5;0; 11;0;0;0; 16;1;0;0] = [0; 0; 0].
 Proof. vm_compute. reflexivity. Qed.
-Example anchor3s : entry 1 [4; 0; 16;1;0;0] = [0].
+Example anchor3s : entry 1 [4; 0; 16;1;0;0; 17;1;5;0; 11;0;0;0; 16;1;0;0] = [0; 0; 0].
 Proof. vm_compute. reflexivity. Qed.
 Example anchor4 : (* reversed comparator, RangeWithRange(5, 1) = keys 5,4,3,2 ; stop after 3 calls *)
   entry 0 [5; 0; 0;0;0;0; 1;1;10;0; 1;3;30;0; 1;5;50;0; 1;4;40;0; 1;2;20;0; 17;5;1;3; 16;3;0;0]
